@@ -367,7 +367,8 @@ def check_order(bat, op, pre, post, outcome):
         bat.ok(survivors_a == survivors_b, f"{kind}-order", "survivors-reordered", f"after {op!r} surviving {kind} changed relative order: {a} -> {b}", "assert:view-order")
         new = [x for x in b if x not in sa]
         bat.ok(b[len(b) - len(new):] == new, f"{kind}-order", "new-ids-not-appended", f"after {op!r} new {kind} {new} are not at the end: {b}", "assert:view-order")
-        if kind == "edges" and op.name in ("add_edges_from", "add_simplices_from") and outcome == "returned" and new:
+        # (not for complexes: generated faces get automatic IDs that may coincide with the ID of a skipped entry)
+        if kind == "edges" and bat.cls != "SimplicialComplex" and op.name == "add_edges_from" and outcome == "returned" and new:
             fmt = [int(t[3:]) for t in op.tags if t.startswith("fmt")]
             if fmt and fmt[0] in (2, 4, 5) and op.kwargs.get("max_order") is None:  # (a cut simplex's ID may be re-used by a face)
                 eb = op.args[0]
